@@ -41,6 +41,7 @@ class Oracle:
         hist, live = collections.defaultdict(set), set()                      # every (id, name) a writer ever had; writers not yet closed
         nsrc, min_sev, sites, cs_list = 0, 32, {}, [None]
         outputs = [[]]                                                          # list of outputs, each a list of entries (payload bytes)
+        consume_only = []                                                       # what consume (not reconsumeMetadata) wrote, as one stream
         delivered = []
         src_ids = []
         for op, tok in zip(self.ops, toks):
@@ -57,9 +58,10 @@ class Oracle:
                 nsrc += 1
                 if tok != 'i%d' % nsrc: return 'addEventSource returned %s, expected the next distinct id %d' % (tok, nsrc)
             elif f[0] == 'cs': cs_list.append(tuple(f[1:]))
-            elif f[0] == 'ms': min_sev = int(f[1])
-            elif f[0] == 'lg':
-                w, site, sev, clock, args = int(f[1]), int(f[3]), int(f[4]), int(f[5]), bytes.fromhex(f[6])
+            elif f[0] in ('ms', 'mw'): min_sev = int(f[1])
+            elif f[0] in ('lg', 'lx'):
+                if f[0] == 'lx': w, site, sev, clock, args = int(f[1]), (8 if f[3] == '1' else 9), (64 if f[3] == '1' else 512), int(f[4]), bytes.fromhex(f[5])
+                else: w, site, sev, clock, args = int(f[1]), int(f[3]), int(f[4]), int(f[5]), bytes.fromhex(f[6])
                 enabled = sev >= min_sev and w in live
                 if 'sev' in ck and (tok == 'b1') != enabled: return 'log statement at severity %d with minimum %d: arguments %sevaluated' % (sev, min_sev, '' if tok == 'b1' else 'not ')
                 if enabled:
@@ -112,12 +114,13 @@ class Oracle:
                                 w = ws.pop()
                                 if (wid, name) not in hist[w] and (wid, name) != tuple(wprops[w]): return 'batch attributed to writer (%d,%r) but its events were produced by writer %d = %r' % (wid, name, w, tuple(wprops[w]))
                             elif len(ws) > 1: return 'one batch mixes events of several writers'
-                        outputs[-1].append(p); outputs[-1] += evs; delivered += evs
+                        outputs[-1].append(p); outputs[-1] += evs; delivered += evs; consume_only += [p] + evs
                         i = j
                     else:
                         if 'framing' in ck and f[0] in ('co', 'cf', 'cb') and any(len(e) >= 8 and int.from_bytes(e[:8], 'little') < (1 << 63) for e in ents):
                             return 'event entries written without an immediately preceding writer-properties entry whose batch size covers them'
                         outputs[-1] += ents; i += 1
+                        if f[0] in ('co', 'cf', 'cb'): consume_only += ents
                 if 'once' in ck and (f[0] == 'cb' or (f[0] == 'co' and (len(f) < 2 or f[1] == ''))) and tok[0] == 'W':
                     # a consume that starts after every add returned and reads the newest stores delivers everything accepted so far
                     dl = collections.Counter(delivered)
@@ -135,18 +138,18 @@ class Oracle:
                     got = [e for e in delivered if owner.get(e) == w]
                     if got != ps: return 'events of writer %d: accepted %d, delivered %d%s' % (w, len(ps), len(got), '' if sorted(got) != sorted(ps) else ' (reordered)')
         if 'meta' in ck:
-            for oi, ents in enumerate(outputs):
+            for oi, ents in list(enumerate(outputs)) + [('of consume alone', consume_only)]:
                 seen_src, seen_cs = set(), False
                 for e in ents:
                     tag = int.from_bytes(e[:8], 'little')
                     if tag == TAG_SRC:
                         sid = int.from_bytes(e[8:16], 'little')
-                        if sid in seen_src: return 'source %d written twice to output %d' % (sid, oi)
+                        if sid in seen_src: return 'source %d written twice to output %s' % (sid, oi)
                         seen_src.add(sid)
                     elif tag == TAG_CS: seen_cs = True
                     elif tag < (1 << 63):
-                        if not seen_cs: return 'an event precedes every clock sync in output %d' % oi
-                        if e in owner and tag not in seen_src and 1 <= tag <= nsrc: return 'event with source id %d is not preceded by its source entry in output %d' % (tag, oi)
+                        if not seen_cs: return 'an event precedes every clock sync in output %s' % oi
+                        if e in owner and tag not in seen_src and 1 <= tag <= nsrc: return 'event with source id %d is not preceded by its source entry in output %s' % (tag, oi)
         return True
 
 def make_case(rng, **kw):
